@@ -390,7 +390,17 @@ class Roles:
             if is_wraps:
                 res["wraps"].append(f)
             else:
-                res["impl"].append(f)
+                # the checking implementation(s): nested functions that take part in the call -- they mention the decorated function or one of the
+                # synthesised checkers, or are called by a wrapper with the call's arguments.  A nested predicate / formatting helper
+                # (`lacks_jaxtyping_note(e)`, `modify_annotation(ann)`) is neither a wrapper nor an implementation.
+                names = {n.id for n in ast.walk(f.node) if isinstance(n, ast.Name)}
+                checkers = {t.id for st in walk_scope(jt.node) if isinstance(st, ast.Assign) and isinstance(st.value, ast.Call)
+                            and isinstance(st.value.func, ast.Name) and st.value.func.id in ("_make_fn_with_signature", "_apply_typechecker")
+                            for t in st.targets for t in ([t] if isinstance(t, ast.Name) else [e for e in getattr(t, "elts", []) if isinstance(e, ast.Name)])}
+                if "fn" in names or (names & checkers) or f.name == "modify_annotation":
+                    res["impl"].append(f)
+                else:
+                    res.setdefault("helpers", []).append(f)
         need(res["wraps"], "no wrapper closure returned by jaxtyped found")
         return res
 
